@@ -792,28 +792,112 @@ Section Hash.
 End Hash.
 
 (* ------------------------------------------------------------------ realtime.SQLCache *)
-(* compare_records(settings, use_sql_from_cache, include_found_by_blocking_rules): the cache
-   maps a settings identity (and, in the repaired tree, the flag) to the SQL generated at the
-   first uncached call; the generated SQL is identified by the flag it was generated with. *)
-Record rt_call := { rc_settings : nat; rc_use_cache : bool; rc_flag : bool }.
-Definition rt_key (fix78 : bool) (c : rt_call) : nat * bool :=
-  (rc_settings c, if fix78 then rc_flag c else false).
-Definition rt_key_eqb (a b : nat * bool) : bool := Nat.eqb (fst a) (fst b) && Bool.eqb (snd a) (snd b).
-Fixpoint rt_get (m : list (nat * bool * bool)) (k : nat * bool) : option bool :=
-  match m with
-  | [] => None
-  | (k', v) :: r => if rt_key_eqb k' k then Some v else rt_get r k
+(* compare_records(record_1, record_2, settings, db_api, use_sql_from_cache, include_found_by_blocking_rules).
+   The module-level SQLCache maps a settings identity (+ the flag suffix, in the repaired tree) to the SQL generated at
+   an uncached call, together with a weak reference to the SettingsCreator it was generated for.
+
+   Settings values:  [RObj addr gen model]  a SettingsCreator object: CPython address (id()), identity of the object
+                                            (gen: distinct objects have distinct gens, addresses are reused), its model;
+                     [RDict base conf]      a settings dict: everything but the ComparisonCreator.configure() values
+                                            (base) and those values (conf: m/u probabilities, tf adjustments);
+                     [RStr p]               a path / json string.
+   The generated SQL is identified by the settings' model and the flag it was generated with ([rt_sql]).
+   [rt_params] are the key ingredients that translators/c07_realtime.py reads off the source on every run. *)
+Inductive rt_settings := RObj (addr gen model : nat) | RDict (base conf : nat) | RStr (p : nat).
+Record rt_params := {
+  rp_flag_in_key : bool;          (* include_found_by_blocking_rules is part of the key (7.8) *)
+  rp_configured_in_key : bool;    (* the key of a dict holding creator objects contains the configure() values *)
+  rp_liveness_called : bool       (* SQLCache.get CALLS the weak reference before trusting an id()-keyed entry *)
+}.
+Inductive rt_key := KAddr (a : nat) | KDict (base conf : nat) | KStr (p : nat).
+Definition rt_key_eqb (a b : rt_key) : bool :=
+  match a, b with
+  | KAddr x, KAddr y => Nat.eqb x y
+  | KDict x1 x2, KDict y1 y2 => Nat.eqb x1 y1 && Nat.eqb x2 y2
+  | KStr x, KStr y => Nat.eqb x y
+  | _, _ => false
   end.
-(* returns the flag of the SQL that is executed, and whether the cached path was taken *)
-Definition rt_step (fix78 : bool) (m : list (nat * bool * bool)) (c : rt_call)
-  : list (nat * bool * bool) * (bool * bool) :=
-  let k := rt_key fix78 c in
-  match (if rc_use_cache c then rt_get m k else None) with
-  | Some f => (m, (f, true))
-  | None => ((k, rc_flag c) :: m, (rc_flag c, false))
+Definition rt_key_of (P : rt_params) (s : rt_settings) : rt_key :=
+  match s with
+  | RObj a _ _ => KAddr a                                             (* str(id(settings)) *)
+  | RDict b c => KDict b (if rp_configured_in_key P then c else 0)     (* json.dumps(settings dict) *)
+  | RStr p => KStr p
   end.
-Fixpoint rt_run (fix78 : bool) (m : list (nat * bool * bool)) (cs : list rt_call) : list (bool * bool) :=
-  match cs with
+Definition sqlid := (nat * nat * nat)%type.
+Definition rt_sql (s : rt_settings) : sqlid :=
+  match s with RObj _ _ m => (0, m, 0) | RDict b c => (1, b, c) | RStr p => (2, p, 0) end.
+Definition sqlid_eqb (a b : sqlid) : bool :=
+  match a, b with (a1, a2, a3), (b1, b2, b3) => Nat.eqb a1 b1 && Nat.eqb a2 b2 && Nat.eqb a3 b3 end.
+Record rt_entry := { re_key : rt_key; re_fkey : bool; re_sql : sqlid; re_flag : bool; re_ref : option nat }.
+Inductive rt_event :=
+| RtCall (s : rt_settings) (use_cache flag : bool)
+| RtDel (gen : nat).                                 (* the SettingsCreator object is garbage collected *)
+
+Definition rt_match (k : rt_key) (fk : bool) (e : rt_entry) : bool := rt_key_eqb (re_key e) k && Bool.eqb (re_fkey e) fk.
+Definition rt_find (m : list rt_entry) (k : rt_key) (fk : bool) : option rt_entry := find (rt_match k fk) m.
+Definition rt_dead (dead : list nat) (e : rt_entry) : bool :=
+  match re_ref e with Some g => existsb (Nat.eqb g) dead | None => false end.
+
+(* one event: new cache, new list of dead objects, and for a call (sql executed, flag of that sql, cached path) *)
+Definition rt_step (P : rt_params) (st : list rt_entry * list nat) (ev : rt_event)
+  : (list rt_entry * list nat) * option (sqlid * bool * bool) :=
+  let '(m, dead) := st in
+  match ev with
+  | RtDel g => ((m, g :: dead), None)
+  | RtCall s uc f =>
+      let k := rt_key_of P s in
+      let fk := if rp_flag_in_key P then f else false in
+      let fresh := {| re_key := k; re_fkey := fk; re_sql := rt_sql s; re_flag := f;
+                      re_ref := match s with RObj _ g _ => Some g | _ => None end |} in
+      let miss m' := ((fresh :: filter (fun e => negb (rt_match k fk e)) m', dead), Some (rt_sql s, f, false)) in
+      if uc then
+        match rt_find m k fk with
+        | Some e =>
+            if rp_liveness_called P && rt_dead dead e
+            then miss m                                   (* dead reference: del self._cache[key]; return None *)
+            else ((m, dead), Some (re_sql e, re_flag e, true))
+        | None => miss m
+        end
+      else miss m
+  end.
+Fixpoint rt_run (P : rt_params) (st : list rt_entry * list nat) (evs : list rt_event) : list (option (sqlid * bool * bool)) :=
+  match evs with
   | [] => []
-  | c :: r => let '(m', out) := rt_step fix78 m c in out :: rt_run fix78 m' r
+  | ev :: r => let '(st', out) := rt_step P st ev in out :: rt_run P st' r
+  end.
+
+(* what Python guarantees about the objects: a call passes a live object; an address belongs to one live object at a
+   time (it is reused only after the previous owner died); an object keeps its address and its model *)
+Definition rt_wf_step (st : list (nat * nat * nat) * list nat) (ev : rt_event) : (list (nat * nat * nat) * list nat) * bool :=
+  let '(owners, dead) := st in
+  match ev with
+  | RtDel g => ((filter (fun o => negb (Nat.eqb (snd (fst o)) g)) owners, g :: dead), true)
+  | RtCall (RObj a g m) _ _ =>
+      let ok := negb (existsb (Nat.eqb g) dead) &&
+                forallb (fun o => match o with (a', g', m') =>
+                           (negb (Nat.eqb a' a) || Nat.eqb g' g) && (negb (Nat.eqb g' g) || (Nat.eqb a' a && Nat.eqb m' m)) end) owners in
+      (((a, g, m) :: owners, dead), ok)
+  | RtCall _ _ _ => (st, true)
+  end.
+Fixpoint rt_wf (st : list (nat * nat * nat) * list nat) (evs : list rt_event) : bool :=
+  match evs with
+  | [] => true
+  | ev :: r => let '(st', ok) := rt_wf_step st ev in ok && rt_wf st' r
+  end.
+Definition rt_good : rt_params := {| rp_flag_in_key := true; rp_configured_in_key := true; rp_liveness_called := true |}.
+Definition rt_params_ok (P : rt_params) : bool := rp_flag_in_key P && rp_configured_in_key P && rp_liveness_called P.
+(* the answer a call must give: the SQL of its own settings and flag *)
+Definition rt_expected (ev : rt_event) : option (sqlid * bool) :=
+  match ev with RtCall s _ f => Some (rt_sql s, f) | RtDel _ => None end.
+Definition rt_out_okb (ev : rt_event) (out : option (sqlid * bool * bool)) : bool :=
+  match rt_expected ev, out with
+  | Some (q, f), Some (q', f', _) => sqlid_eqb q' q && Bool.eqb f' f
+  | None, None => true
+  | _, _ => false
+  end.
+Fixpoint rt_all_okb (evs : list rt_event) (outs : list (option (sqlid * bool * bool))) : bool :=
+  match evs, outs with
+  | [], [] => true
+  | ev :: r, o :: r' => rt_out_okb ev o && rt_all_okb r r'
+  | _, _ => false
   end.
